@@ -219,6 +219,7 @@ func runC05(e *Env) error {
 		}
 	})
 	if e.Replay == "" {
+		c05Renames(e)
 		c05CLI(e)
 	}
 	return nil
